@@ -233,10 +233,10 @@ def clone(x, memo=None):
         y = t(x)
         memo[id(x)] = (x, y)
         return y
-    kids = children(x)          # fails closed on unknown types
+    children(x)                 # fails closed on unknown types
     y = t.__new__(t)
     memo[id(x)] = (x, y)
-    for k, v in kids:
+    for k, v in list(x.__dict__.items()):        # the attribute names of the tree under test (children() speaks in roles)
         y.__dict__[k] = clone(v, memo)
     return y
 
